@@ -280,7 +280,7 @@ type hsEdit struct {
 	Dir int    `json:"dir"`
 	Msg int    `json:"msg"` // index (modulo the number seen so far is NOT applied: exact index among clear-text handshake records)
 	Type int   `json:"type,omitempty"` // > 0: instead of Msg, the first clear-text handshake message of this type
-	Op  string `json:"op"`  // empty | shrink | set | setvec | echo_sid | dropext | dupext
+	Op  string `json:"op"`  // empty | shrink | set | setvec | echo_sid | sigalg | dropext | dupext
 	Data []byte `json:"data,omitempty"` // setvec: the new content of the vector; echo_sid: filled in at run time with the client's session id
 	Ext int    `json:"ext"` // >= 0: prefer fields inside this extension type; -1: any field
 	Sel int    `json:"sel"` // selector among the candidate fields
@@ -352,6 +352,36 @@ func applyHSEdit(typ byte, body []byte, e hsEdit) (out []byte, ok bool) {
 		return append(append(append([]byte(nil), nb[:s0]...), ins...), nb[en:]...)
 	}
 	switch e.Op {
+	case "sigalg":
+		// the signature scheme named in a ServerKeyExchange (TLS 1.2) or CertificateVerify is replaced by another
+		// registered one: the peer says "ECDSA" over an RSA key, "Ed25519" over an ECDSA key, another hash, ...
+		schemes := []int{0x0401, 0x0403, 0x0804, 0x0807, 0x0201, 0x0203, 0x0501, 0x0503, 0x0601, 0x0603, 0x0805, 0x0806, 0x0101, 0x0303}
+		v := schemes[e.Val%len(schemes)]
+		nb := append([]byte(nil), body...)
+		switch typ {
+		case 12:
+			var one []enumField
+			for _, f := range inf.Enums {
+				if f.W == 1 {
+					one = append(one, f)
+				}
+			}
+			if len(one) < 3 { // curve_type, hash, signature (ECDHE) or hash, signature (DHE): needs the TLS 1.2 form
+				if len(one) != 2 || len(body) == 0 || body[0] == 3 {
+					return nil, false
+				}
+			}
+			h, sg := one[len(one)-2], one[len(one)-1]
+			nb[h.Off], nb[sg.Off] = byte(v>>8), byte(v)
+		case 15:
+			if len(inf.Enums) == 0 || inf.Enums[0].W != 2 {
+				return nil, false
+			}
+			nb[0], nb[1] = byte(v>>8), byte(v)
+		default:
+			return nil, false
+		}
+		return nb, string(nb) != string(body)
 	case "echo_sid":
 		// ServerHello.session_id := the session id the client sent (a server that caches sessions by id echoes it;
 		// RFC 5246 7.4.1.3) — here also when the client has nothing to resume
